@@ -1,11 +1,13 @@
 package rules
 
 import (
+	"os"
 	"fmt"
 	"go/ast"
 	"go/constant"
 	"go/token"
 	"go/types"
+	"sort"
 	"strings"
 
 	"verif/mlbcheck/chk"
@@ -118,6 +120,18 @@ func c16Negotiated(p *chk.Prog, r *chk.Report) {
 // writesTo: node contains a write into buffer b (b.Write*, binary.Write(&b,…), a
 // call of a module function that is handed &b or b).
 func writesTo(f *chk.Fn, buf types.Object) func(ast.Node) bool {
+	// handed over as the buffer itself (b, &b), not as something computed from it (b.Len(), b.Bytes())
+	isBuf := func(a ast.Expr) bool {
+		a = ast.Unparen(a)
+		if u, ok := a.(*ast.UnaryExpr); ok && u.Op == token.AND {
+			a = ast.Unparen(u.X)
+		}
+		switch a.(type) {
+		case *ast.Ident, *ast.SelectorExpr:
+			return f.RootObj(a) == buf
+		}
+		return false
+	}
 	return func(n ast.Node) bool {
 		found := false
 		chk.InspectNoLit(n, func(m ast.Node) bool {
@@ -129,7 +143,7 @@ func writesTo(f *chk.Fn, buf types.Object) func(ast.Node) bool {
 				found = true
 			}
 			for _, a := range c.Args {
-				if f.RootObj(a) == buf {
+				if isBuf(a) {
 					if fn, ok := f.Callee(c).(*types.Func); ok {
 						full := fn.FullName()
 						if full == "encoding/binary.Write" || strings.HasPrefix(full, chk.Module) {
@@ -181,6 +195,13 @@ func c16Layout(p *chk.Prog, r *chk.Report) {
 			byOff[[2]int{l.Offset, l.Offset + l.Size}] = l
 		}
 		puts := g.FindPat("binary.BigEndian.PutUint16(B.Bytes()[I:J], V)", chk.H("B", f.IsObj(buf)))
+		if len(puts) == 0 {
+			// no length is patched afterwards: the sections are encoded first and the header is built with its lengths
+			if c16PrecomputedLengths(x, p, f, g, name, buf, first, ht, lay) {
+				x.OK(name+":total-length-patched", f.Pos(), "the lengths are computed before the header is written (decided above)")
+				continue
+			}
+		}
 		seenLen := false
 		for _, s := range puts {
 			b := f.MatchNew("binary.BigEndian.PutUint16(B.Bytes()[I:J], V)", s.Node.(ast.Expr))
@@ -1052,6 +1073,16 @@ func c16Read(p *chk.Prog, r *chk.Report) {
 				}
 			} else {
 				okN = f.MatchNew("int64(H.Len)", nExpr) != nil
+				if !okN {
+					// the two-byte option / capability header read into a fixed array: the length is its second byte
+					if b := f.MatchNew("int64(L)", nExpr); b != nil {
+						if hb := f.MatchNew("B[1]", f.Resolve(b["L"])); hb != nil {
+							if at, isArr := info.TypeOf(hb["B"]).Underlying().(*types.Array); isArr && at.Len() == 2 {
+								okN = len(g.FindPat("io.ReadFull(R, B[:])", chk.H("B", func(e ast.Expr) bool { return f.SameExpr(e, hb["B"]) }))) == 1
+							}
+						}
+					}
+				}
 			}
 			x.Check(name+":limit("+v.Name()+")", nExpr.Pos(), okN, "", "the LimitedReader's limit is not the length field just read (readOpen: message length minus the 19-byte header)")
 		}
@@ -1064,7 +1095,7 @@ func c16Read(p *chk.Prog, r *chk.Report) {
 				return false
 			}
 			fn, ok := f.Callee(c).(*types.Func)
-			return ok && (fn.FullName() == "encoding/binary.Read" || fn.FullName() == "io.Copy")
+			return ok && (fn.FullName() == "encoding/binary.Read" || fn.FullName() == "io.Copy" || fn.FullName() == "io.ReadFull")
 		}) {
 			c := s.Node.(*ast.CallExpr)
 			src := c.Args[0]
@@ -1122,15 +1153,25 @@ func c16Read(p *chk.Prog, r *chk.Report) {
 			// included) leaves the function
 			ends := g.ForIterationEnds(fs)
 			okp := len(ends) > 0
+			// io.ReadFull into a fixed-size array is the same read (binary.Read is io.ReadFull of the value's size)
+			fixedBuf := func(e ast.Expr) bool {
+				t := info.TypeOf(e)
+				if t == nil {
+					return false
+				}
+				_, isArr := t.Underlying().(*types.Array)
+				return isArr
+			}
+			didRead := chk.GOr(g.GErrNil(true, "binary.Read(R, binary.BigEndian, V)"), g.GErrNil(true, "io.ReadFull(R, B[:])", chk.H("B", fixedBuf)))
 			for _, e := range ends {
-				if !g.Dominated(e, g.GErrNil(true, "binary.Read(R, binary.BigEndian, V)")) {
+				if !g.Dominated(e, didRead) {
 					okp = false
 				}
 			}
 			// and that read belongs to this iteration
 			nRead := 0
 			chk.InspectNoLit(fs.Body, func(m ast.Node) bool {
-				if e, isE := m.(ast.Expr); isE && f.MatchNew("binary.Read(R, binary.BigEndian, V)", e) != nil {
+				if e, isE := m.(ast.Expr); isE && (f.MatchNew("binary.Read(R, binary.BigEndian, V)", e) != nil || f.MatchWith("io.ReadFull(R, B[:])", e, chk.H("B", fixedBuf)) != nil) {
 					nRead++
 				}
 				return true
@@ -1147,11 +1188,39 @@ func c16Read(p *chk.Prog, r *chk.Report) {
 				if t := info.TypeOf(v.X); t != nil {
 					if _, isMap := t.Underlying().(*types.Map); !isMap {
 						if _, isSig := t.Underlying().(*types.Signature); !isSig {
+							// a constant index into a fixed-size array is checked by the compiler
+							if at, isArr := t.Underlying().(*types.Array); isArr {
+								if c, isC := constInt(f, v.Index); isC && c >= 0 && int64(c) < at.Len() {
+									break
+								}
+							}
 							bad = "index expression " + types.ExprString(v)
 						}
 					}
 				}
 			case *ast.SliceExpr:
+				// constant (or absent) bounds on a fixed-size array are checked by the compiler
+				if at, isArr := info.TypeOf(v.X).Underlying().(*types.Array); isArr && !v.Slice3 {
+					okB := true
+					lo, hi := int64(0), at.Len()
+					if v.Low != nil {
+						if c, isC := constInt(f, v.Low); isC {
+							lo = int64(c)
+						} else {
+							okB = false
+						}
+					}
+					if v.High != nil {
+						if c, isC := constInt(f, v.High); isC {
+							hi = int64(c)
+						} else {
+							okB = false
+						}
+					}
+					if okB && 0 <= lo && lo <= hi && hi <= at.Len() {
+						break
+					}
+				}
 				bad = "slice expression " + types.ExprString(v)
 			case *ast.TypeAssertExpr:
 				if as, ok := p.Parent(v).(*ast.AssignStmt); !ok || len(as.Lhs) != 2 {
@@ -1306,4 +1375,294 @@ func fixedWrite(f *chk.Fn, buf func(ast.Expr) bool, n ast.Node) (v ast.Expr, sz 
 		return true
 	})
 	return
+}
+
+// c16PrecomputedLengths decides the message builders when the sections are encoded into buffers of their own first and
+// the header is written with its length fields already filled in (no byte of the message is patched later):
+//
+//   - every write to the message buffer is executed exactly once before the buffer is sent (no loop, on every path
+//     that sends) and appends a number of bytes that is known as an expression: the packed size of a fixed-size value,
+//     or X.Len() for another buffer X appended whole (b.Write(X.Bytes()));
+//   - hdr.Len is safeconvert.IntToUInt16 of a sum whose terms are exactly those sizes (binary.Size(hdr) stands for the
+//     packed size of the header), the error checked, and no appended buffer grows between the sum and its append;
+//   - the section length field (WdrLen / AttrLen) is IntToUInt16(X.Len()) of the buffer that only the section's encoder
+//     (encodePrefixes / encodePathAttrs) writes and that is appended directly after the header.
+//
+// It returns false when the function does not have this shape at all (the caller then reports the missing patch).
+func c16PrecomputedLengths(x *chk.R, p *chk.Prog, f *chk.Fn, g *chk.Graph, name string, buf types.Object, first chk.Site, ht types.Type, lay []chk.FieldLayout) bool {
+	hdrArg := first.Node.(*ast.CallExpr).Args[2]
+	hid, isId := ast.Unparen(hdrArg).(*ast.Ident)
+	if !isId {
+		return false
+	}
+	hdr := f.ObjOf(hid)
+	info := f.Info()
+	// the value of each length field when the header is written: one source each (literal key or assignment)
+	fieldVal := map[string]ast.Expr{}
+	nSrc := map[string]int{}
+	bad := false
+	ast.Inspect(f.Body, func(n ast.Node) bool {
+		switch st := n.(type) {
+		case *ast.AssignStmt:
+			for i, l := range st.Lhs {
+				if id, ok := l.(*ast.Ident); ok && f.ObjOf(id) == hdr && i < len(st.Rhs) && len(st.Lhs) == len(st.Rhs) {
+					if cl, isLit := ast.Unparen(st.Rhs[i]).(*ast.CompositeLit); isLit {
+						for _, el := range cl.Elts {
+							if kv, isKV := el.(*ast.KeyValueExpr); isKV {
+								k := kv.Key.(*ast.Ident).Name
+								fieldVal[k] = kv.Value
+								nSrc[k]++
+							} else {
+								bad = true
+							}
+						}
+					} else {
+						bad = true
+					}
+					continue
+				}
+				sel, ok := ast.Unparen(l).(*ast.SelectorExpr)
+				if !ok || f.ObjOf(sel.X) != hdr {
+					continue
+				}
+				nSrc[sel.Sel.Name]++
+				if st.Pos() > first.Pos() {
+					bad = true // set after the header went out
+				}
+				if len(st.Lhs) == len(st.Rhs) {
+					fieldVal[sel.Sel.Name] = st.Rhs[i]
+				} else if len(st.Rhs) == 1 && i == 0 {
+					fieldVal[sel.Sel.Name] = st.Rhs[0] // hdr.Len, err = F(...)
+				} else {
+					bad = true
+				}
+			}
+		case *ast.UnaryExpr:
+			if id, ok := ast.Unparen(st.X).(*ast.Ident); ok && st.Op == token.AND && f.ObjOf(id) == hdr {
+				bad = true
+			}
+		}
+		return true
+	})
+	if bad || fieldVal["Len"] == nil || nSrc["Len"] != 1 {
+		return false
+	}
+	isWrite := writesTo(f, buf)
+	sends := sendsBuffer(f, buf)
+	// checked conversion: V is (a local holding) result 0 of safeconvert.IntToUInt16(E), and the error was tested before
+	// the header is written
+	checked := func(v ast.Expr) ast.Expr {
+		var call ast.Expr
+		switch y := ast.Unparen(v).(type) {
+		case *ast.CallExpr:
+			call = y
+		case *ast.Ident:
+			rhs, idx := g.DefOf(y, g.FactSite(y))
+			if rhs != nil && idx == 0 {
+				call = rhs
+			}
+		}
+		if call == nil {
+			return nil
+		}
+		b := f.MatchNew("safeconvert.IntToUInt16(E)", call)
+		if b == nil {
+			return nil
+		}
+		// the error was tested where the value is used (a later conversion may reuse the error variable)
+		use := g.FactSite(v)
+		if _, isCall := ast.Unparen(v).(*ast.CallExpr); isCall {
+			use = first
+		}
+		if !g.Dominated(use, g.GErrNil(true, "safeconvert.IntToUInt16(E)", chk.H("E", func(e ast.Expr) bool { return f.SameExpr(e, b["E"]) }))) {
+			return nil
+		}
+		return b["E"]
+	}
+	// the writes, in program order
+	type wr struct {
+		site  chk.Site
+		size  int          // constant part
+		other types.Object // X for b.Write(X.Bytes())
+	}
+	var writes []wr
+	okWrites := true
+	for _, s := range g.Find(func(n ast.Node) bool { _, isStmt := n.(ast.Stmt); return isStmt && isWrite(n) }) {
+		if f.LoopOf(s.Node) != nil {
+			okWrites = false
+			continue
+		}
+		w := wr{site: s}
+		var call *ast.CallExpr
+		chk.InspectNoLit(s.Node, func(m ast.Node) bool {
+			if c, ok := m.(*ast.CallExpr); ok && call == nil && writesTo(f, buf)(c) {
+				call = c
+			}
+			return true
+		})
+		switch {
+		case call == nil:
+			okWrites = false
+		case f.MatchWith("binary.Write(&B, binary.BigEndian, V)", call, chk.H("B", f.IsObj(buf))) != nil:
+			t := info.TypeOf(call.Args[2])
+			w.size = chk.PackedSize(t)
+			if w.size <= 0 {
+				okWrites = false
+			}
+		case f.MatchWith("B.Write(X.Bytes())", call, chk.H("B", f.IsObj(buf))) != nil:
+			b := f.MatchWith("B.Write(X.Bytes())", call, chk.H("B", f.IsObj(buf)))
+			w.other = f.ObjOf(b["X"])
+			if w.other == nil || w.other == buf {
+				okWrites = false
+			}
+		default:
+			okWrites = false
+		}
+		// executed on every path that sends the buffer
+		if (&chk.Walk{G: g, Stop: func(n ast.Node) bool { return n == s.Top }, Hit: sends}).Run().Found {
+			okWrites = false
+		}
+		writes = append(writes, w)
+	}
+	sort.Slice(writes, func(i, j int) bool { return writes[i].site.Pos() < writes[j].site.Pos() })
+	if os.Getenv("MLB_DEBUG_C16") != "" {
+		for _, w := range writes {
+			fmt.Fprintln(os.Stderr, "C16 write", p.Rel(w.site.Pos()), w.size, w.other)
+		}
+	}
+	x.Check(name+":writes-of-known-size", f.Pos(), okWrites && len(writes) >= 1 && writes[0].site.Top == first.Top, "", "with the lengths computed before the header is written, every write to the message buffer must append a known number of bytes exactly once (a fixed-size value, or another buffer appended whole) and the header must come first")
+	if !okWrites || len(writes) == 0 {
+		return true
+	}
+	// the total length: a sum of exactly the sizes written
+	wantConst := 0
+	wantBufs := map[types.Object]int{}
+	for _, w := range writes {
+		wantConst += w.size
+		if w.other != nil {
+			wantBufs[w.other]++
+		}
+	}
+	sum := checked(fieldVal["Len"])
+	haveConst := 0
+	haveBufs := map[types.Object]int{}
+	okSum := sum != nil
+	var lenSites []chk.Site
+	var terms func(e ast.Expr, depth int)
+	terms = func(e ast.Expr, depth int) {
+		e = ast.Unparen(e)
+		if be, isBin := e.(*ast.BinaryExpr); isBin && be.Op == token.ADD {
+			terms(be.X, depth)
+			terms(be.Y, depth)
+			return
+		}
+		if c, isC := constInt(f, e); isC {
+			haveConst += c
+			return
+		}
+		if b := f.MatchNew("binary.Size(H)", e); b != nil && f.ObjOf(b["H"]) == hdr {
+			haveConst += chk.PackedSize(ht)
+			return
+		}
+		if b := f.MatchNew("X.Len()", e); b != nil {
+			if o := f.ObjOf(b["X"]); o != nil {
+				haveBufs[o]++
+				lenSites = append(lenSites, g.FactSite(e))
+				return
+			}
+		}
+		if id, isId := e.(*ast.Ident); isId && depth < 3 {
+			if rhs, idx := g.DefOf(id, g.FactSite(id)); rhs != nil && idx == 0 && len(assignsTo(f, f.ObjOf(id))) == 1 {
+				terms(rhs, depth+1)
+				return
+			}
+		}
+		okSum = false
+	}
+	if sum != nil {
+		terms(sum, 0)
+	}
+	okSum = okSum && haveConst == wantConst && len(haveBufs) == len(wantBufs)
+	for o, n := range wantBufs {
+		if haveBufs[o] != n {
+			okSum = false
+		}
+	}
+	// an appended buffer does not grow between its measurement and its append
+	grows := func(o types.Object, from chk.Site) bool {
+		wOther := writesTo(f, o)
+		for _, w := range writes {
+			if w.other == o {
+				if (&chk.Walk{G: g, From: from, Hit: func(n ast.Node) bool { _, isStmt := n.(ast.Stmt); return isStmt && wOther(n) && n != w.site.Top }, Stop: func(n ast.Node) bool { return n == w.site.Top }}).Run().Found {
+					return true
+				}
+			}
+		}
+		return false
+	}
+	for _, ls := range lenSites {
+		for o := range wantBufs {
+			if grows(o, ls) {
+				okSum = false
+			}
+		}
+	}
+	x.Check(name+":total-length-is-sum-of-writes", f.Pos(), okSum, "", "hdr.Len is not the checked uint16 of exactly the bytes appended to the message (packed header + appended buffers + trailing fixed-size values), or a buffer grows after it was measured")
+	// the section length
+	for _, c := range []struct{ field, encoder string }{{"WdrLen", "encodePrefixes"}, {"AttrLen", "encodePathAttrs"}} {
+		has := false
+		for _, l := range lay {
+			leaf := l.Name
+			if i := strings.LastIndexByte(leaf, '.'); i >= 0 {
+				leaf = leaf[i+1:]
+			}
+			if leaf == c.field {
+				has = true
+			}
+		}
+		if !has {
+			continue
+		}
+		if name == "sendUpdate" && c.field == "WdrLen" {
+			continue // an UPDATE that announces withdraws nothing: the field stays zero
+		}
+		if name == "sendWithdraw" && c.field == "AttrLen" {
+			continue
+		}
+		okSec := false
+		if os.Getenv("MLB_DEBUG_C16") != "" {
+			fmt.Fprintln(os.Stderr, "C16 sec", c.field, fieldVal[c.field] != nil, nSrc[c.field], checked(fieldVal[c.field]) != nil)
+		}
+		if v := fieldVal[c.field]; v != nil && nSrc[c.field] == 1 {
+			if e := checked(v); e != nil {
+				if b := f.MatchNew("X.Len()", e); b != nil {
+					o := f.ObjOf(b["X"])
+					// appended directly after the header, written only by the section's encoder, before the measurement
+					if o != nil && len(writes) >= 2 && writes[1].other == o {
+						wOther := writesTo(f, o)
+						enc := f.ContainsPat(c.encoder+"(&X, ETC)", chk.H("X", f.IsObj(o)))
+						onlyEnc := true
+						nEnc := 0
+						for _, s := range g.Find(func(n ast.Node) bool { _, isStmt := n.(ast.Stmt); return isStmt && wOther(n) }) {
+							if !enc(s.Node) || f.LoopOf(s.Node) != nil {
+								onlyEnc = false
+							}
+							nEnc++
+						}
+						okSec = onlyEnc && nEnc == 1 && !grows(o, g.FactSite(e))
+						// the encoder ran before the measurement
+						if okSec {
+							w := g.MustPass(chk.Site{}, func(n ast.Node) bool { return n == g.FactSite(e).Top }, false, enc)
+							okSec = !w.Found
+						}
+					}
+				}
+			}
+		}
+		x.Check(name+":patch["+c.field+"]:section-length", f.Pos(), okSec, "", c.field+" is not the checked length of the buffer that "+c.encoder+" alone fills and that is appended directly after the header")
+	}
+	// and the message is sent
+	wc := g.MustPass(writes[len(writes)-1].site, nil, true, func(n ast.Node) bool { return sends(n) || isErrReturn(f, n) })
+	x.Check(name+":patch[Len]:then-sent", f.Pos(), !wc.Found, "", "the assembled buffer is not written to the connection")
+	return true
 }
